@@ -360,8 +360,8 @@ class World:
         st = self.states[self.best.hash]
         spent = set()
         for tx in pool:
-            if tx.txid in confirmed_ids:
-                continue
+            if tx.txid in confirmed_ids or GEN_PREV in tx.ins:
+                continue    # (padding transactions are generation-like: never in a mempool)
             ok = True
             for p in tx.ins:
                 if p == GEN_PREV:
